@@ -1,21 +1,21 @@
 #!/bin/sh
-# usage: seed_confirm.sh <PROP> [worktree]   - confirm a seeded change in its scratch worktree and file it under seeded/<PROP>/
+# usage: seed_confirm.sh <PROP> [worktree] [name]   - confirm a seeded change in its scratch worktree and file it under seeded/<name>/
 # (1) suite with the change  (2) demo with the change fails  (3) demo without passes  (4) our check against a scratch copy
-P=$1; W=${2:-/tmp/seed_$P}; D=/verif/seeded/$P; LOG=$D/confirm.log
+P=$1; W=${2:-/tmp/seed_$P}; N=${3:-$P}; D=/verif/seeded/$N; LOG=$D/confirm.log
 mkdir -p $D; : > $LOG
 cd $W || exit 2
 git checkout -q -- src 2>/dev/null; git apply patch.diff || { echo "patch does not apply"; exit 2; }
 echo "== suite with change" >> $LOG
-PYTHONPATH=$W/src /venv/bin/python -m pytest -q -p no:cacheprovider --timeout=900 src/wormhole/test 2>&1 | tail -1 >> $LOG
+PYTHONPATH=$W/src /venv/bin/python -m pytest -q -p no:cacheprovider --timeout=900 src/wormhole/test 2>&1 | grep -E "passed|failed|error" | tail -1 >> $LOG
 echo "== demo with change" >> $LOG
-PYTHONPATH=$W/src /venv/bin/python -m pytest -q -p no:cacheprovider --timeout=300 demo_test.py 2>&1 | tail -1 >> $LOG
+PYTHONPATH=$W/src /venv/bin/python -m pytest -q -p no:cacheprovider --timeout=300 demo_test.py 2>&1 | grep -E "passed|failed|error" | tail -1 >> $LOG
 git apply -R patch.diff
 echo "== demo without change" >> $LOG
-PYTHONPATH=$W/src /venv/bin/python -m pytest -q -p no:cacheprovider --timeout=300 demo_test.py 2>&1 | tail -1 >> $LOG
+PYTHONPATH=$W/src /venv/bin/python -m pytest -q -p no:cacheprovider --timeout=300 demo_test.py 2>&1 | grep -E "passed|failed|error" | tail -1 >> $LOG
 echo "== suite without change" >> $LOG
 git apply patch.diff
 cp patch.diff demo_test.py $D/; cp NOTE.md $D/NOTE.md 2>/dev/null
-M=/tmp/mut_$P; rm -rf $M; mkdir -p $M; rsync -a --exclude .git --exclude '*.pyc' /repo/ $M/; (cd $M && patch -p1 -s < $D/patch.diff) || { echo "patch does not apply to /repo copy"; exit 2; }
+M=/tmp/mut_$N; rm -rf $M; mkdir -p $M; rsync -a --exclude .git --exclude '*.pyc' /repo/ $M/; (cd $M && patch -p1 -s < $D/patch.diff) || { echo "patch does not apply to /repo copy"; exit 2; }
 echo "== ./check $P quick against the change" >> $LOG
 cd /verif; VERIF_REPO=$M timeout 1500 ./check $P quick > $D/check_quick.out 2>&1; echo "rc=$?" >> $LOG
 grep -E "^(VIOLATION|KNOWN-FINDING|MACHINERY)" $D/check_quick.out | cut -c1-400 | head -5 >> $LOG
